@@ -65,7 +65,10 @@ def collect(P):
     P.flag("ROLLBACK_KILLS_UPDATER", "src/indexer/index_writer.rs",
            r"pub fn rollback\(&mut self\).{0,1500}?self\.segment_updater\.kill\(\);")
     P.flag("SAVE_METAS_CHECKS_ALIVE", "src/indexer/segment_updater.rs",
-           r"pub fn save_metas\(\s*&self,[^)]*\) -> crate::Result<\(\)> \{\s*if self\.is_alive\(\) \{")
+           r"pub fn save_metas\(\s*&self,[^)]*\) -> crate::Result<\(\)> \{\s*(?:let _\w+ = self\s*\.save_metas_lock\s*\.lock\(\)[^;]*;\s*)?if self\.is_alive\(\) \{")
+    # ... and the liveness check and the write of meta.json happen under a lock that kill() takes too (no check-then-act)
+    P.flag("SAVE_METAS_LOCKED_AGAINST_KILL", "src/indexer/segment_updater.rs",
+           r"pub fn kill\(&mut self\) \{\s*let _\w+ = self\s*\.save_metas_lock\s*\.lock\(\).{0,200}?self\.killed\.store\(true.{0,1500}?pub fn save_metas\(\s*&self,[^)]*\) -> crate::Result<\(\)> \{\s*let _\w+ = self\s*\.save_metas_lock\s*\.lock\(\).{0,200}?if self\.is_alive\(\) \{")
     # MmapDirectory::sync_directory (unix): opens the root and fsyncs it
     P.flag("SYNC_DIRECTORY_FSYNCS_ROOT", "src/directory/mmap_directory/mod.rs",
            r"#\[cfg\(not\(windows\)\)\]\s*fn sync_directory\(&self\) -> Result<\(\), io::Error> \{.{0,400}?open\(&self\.inner\.root_path\)\?;\s*fd\.sync_(data|all)\(\)\?;")
